@@ -42,6 +42,7 @@ type Scenario struct {
 	Name    string   `json:"name"`
 	Threads [][]Call `json:"threads"`
 	Size    int      `json:"size"`
+	Cold    bool     `json:"cold"` // close and reopen the cache before the threads start: nothing is loaded yet
 }
 
 // Issued is one operation a thread tried to record.
@@ -129,6 +130,20 @@ func RunOne(s Scenario, prefix []int, preempt bool, recordSites bool) (res Resul
 			return res, err
 		}
 		e.own[names[i]] = pb.Id()
+	}
+	if s.Cold {
+		if err := c.Close(); err != nil {
+			return res, err
+		}
+		e.repo, err = repository.OpenGoGitRepo(dir+"/repo", world.Namespace, nil)
+		if err != nil {
+			return res, err
+		}
+		c, err = cache.NewRepoCacheNoEvents(e.repo)
+		if err != nil {
+			return res, err
+		}
+		e.c = c
 	}
 	if s.Size > 0 {
 		c.Bugs().SetCacheSize(s.Size)
